@@ -2,6 +2,7 @@ import TrionModel.Lemmas.FrontTargets
 import TrionModel.Lemmas.FrontReject
 import TrionModel.Lemmas.ShowAsm
 import TrionModel.Lemmas.FrontWf
+import TrionModel.Props.C02
 /-!
 # C04 — an instruction statement assembles to the encoding of what was written
 
@@ -159,5 +160,37 @@ theorem front_then_enc {Hws Err : Type} (encode : Instr → Except Err Hws) (dec
     by_cases hl : args.length = (kinds t).length
     · exact hl
     · rw [arity_rejected_proof a name args eval loc t hm hl] at hb; cases hb
+
+/-- C04.j  **Concrete end to end**: composition with the codec model of C01–C03 (`Codec.encode`, `Codec.toBytes`,
+`Codec.decode`). Whenever the front end completes a statement and the encoder accepts the instruction, the
+emitted bytes — followed by anything — decode to exactly the instruction the front end built, consuming exactly
+the emitted bytes; the instruction's operands are the ones written (`b_target` … `ldr_target`, `reg_names`,
+`narrow_exact_*`, `build_wf`), the mnemonic is in the table and the operand count is the mnemonic's.
+(`Arm.decode`, the specification table, can replace `Codec.decode` once C01 `enc_sound` is proved.) -/
+theorem front_then_codec (a : Nat) (name : Bytes) (args : List Arg) (eval : Arg → EvalOut) (loc : Bool) (i : Instr)
+    (hws rest : List Nat) (hb : build a name args eval loc = .completed i) (he : Codec.encode i = .ok hws) :
+    Codec.decode (Codec.toBytes hws ++ rest) = .ok (2 * hws.length, i) ∧ i.wf ∧
+      ∃ t, mnemonic name = some t ∧ args.length = (kinds t).length := by
+  have wf := build_wf a name args eval loc i hb
+  refine ⟨Codec.dec_enc i hws rest he wf, wf, ?_⟩
+  exact (front_then_enc (fun j => if j = i then (Except.ok hws : Except Unit (List Nat)) else .error ())
+    (fun _ => some i) (by intro j w h; split at h <;> simp_all) a name args eval loc i hws hb (by simp)).2
+
+/-- the canonical spelling of every decoded instruction goes through the whole chain: printed operands → front
+end → encoder → decoder gives the instruction back -/
+theorem canonical_then_codec (i : Instr) (a : Nat) (eval : Arg → EvalOut) (loc : Bool)
+    (hp : Printable i a) (hev : EvalOK eval i a) (hws : List Nat) (he : Codec.encode i = .ok hws) :
+    build a (parts i a).1 (parts i a).2 eval loc = .completed i ∧
+      Codec.decode (Codec.toBytes hws) = .ok (2 * hws.length, i) := by
+  have hb := front_canonical i a eval loc hp hev
+  have := (front_then_codec a _ _ eval loc i hws [] hb he).1
+  rw [List.append_nil] at this
+  exact ⟨hb, this⟩
+
+/-- non-vacuity: `ADDS R1, R2, 5` at 0 with the identity evaluator -/
+example : build 0 (bytesOf "ADDS") [.ident (bytesOf "R1"), .ident (bytesOf "R2"), .const 5] (fun x => .complete x) false =
+      .completed (.add true 1 2 (.imm 5)) ∧
+    Codec.encode (.add true 1 2 (.imm 5)) = .ok [0x1D51] ∧ Codec.decode (Codec.toBytes [0x1D51]) = .ok (2, .add true 1 2 (.imm 5)) := by
+  refine ⟨rfl, rfl, rfl⟩
 
 end Trion.Front
